@@ -250,7 +250,9 @@ func (w *world) body(sc scenario) (*obs, func(), *harness.MemStore) {
 	// the application's option slice: OptLen options, Spare unused capacity
 	opts := make([]nodeenrollment.Option, sc.OptLen, sc.OptLen+sc.Spare)
 	for i := range opts {
-		opts[i] = []nodeenrollment.Option{nodeenrollment.WithLogger(hclog.NewNullLogger()), nodeenrollment.WithMaximumServerLedActivationTokenLifetime(time.Hour), nodeenrollment.WithNotBeforeClockSkew(-5 * time.Minute)}[i%3]
+		// the application's list may well contain WithState (a fresh value per execution)
+		opts[i] = []nodeenrollment.Option{nodeenrollment.WithState(harness.Struct(map[string]any{"listener-wide": "state"})), nodeenrollment.WithLogger(hclog.NewNullLogger()),
+			nodeenrollment.WithMaximumServerLedActivationTokenLifetime(time.Hour), nodeenrollment.WithNotBeforeClockSkew(-5 * time.Minute)}[i%4]
 	}
 	// unix socket: no ephemeral ports to exhaust over many thousand executions
 	sockSeq++
@@ -435,7 +437,7 @@ func (w *world) dfsConfig(sc scenario, c *engine.Ctx, bound int, solo []string) 
 		wait func()
 	}
 	return engine.DFSConfig{
-		Name: sc.String(), Bound: bound, Deadline: c.Deadline, MaxSteps: 2000,
+		Name: sc.String(), Bound: bound, Deadline: c.Deadline, MaxSteps: 2000, Watchdog: 150 * time.Second,
 		Body: func() any {
 			o, wait, _ := w.body(sc)
 			return pack{o, wait}
@@ -538,12 +540,22 @@ func run(c *engine.Ctx, r *engine.Report) {
 		for _, v := range res.Violations {
 			cls := "cross-talk"
 			switch {
+			case strings.HasPrefix(v.Message, "stuck"):
+				cls = "stuck"
 			case strings.HasPrefix(v.Message, "deadlock"):
 				cls = "deadlock"
 			case strings.HasPrefix(v.Message, "panic"):
 				cls = "panic"
 			}
 			r.Violate(fmt.Sprintf("%s:spare=%v:%s", cls, sc.Spare > 0, strings.Join(sc.Clients, "+")), fmt.Sprintf("scenario {%s} schedule %v: %s", sc, v.Choices, v.Message), replayData{sc, v.Choices, bound, c.Seed})
+		}
+		stuck := false
+		for _, v := range res.Violations {
+			stuck = stuck || strings.HasPrefix(v.Message, "stuck")
+		}
+		if stuck {
+			r.Incomplete("a stuck execution holds the scheduler; this worker stops exploring")
+			return
 		}
 		if si%7 == 0 {
 			r.Sample(map[string]any{"scenario": sc, "schedules": res.Executions, "max_choice_points": res.MaxDepth, "alone": solo})
@@ -563,9 +575,21 @@ func raceRun(c *engine.Ctx, r *engine.Report) {
 		}
 		solo := w.solo(sc)
 		for i := 0; i < reps; i++ {
-			o, wait, _ := w.body(sc)
-			vrt.WaitFree()
-			wait()
+			var o *obs
+			done := make(chan struct{})
+			go func() {
+				var wait func()
+				o, wait, _ = w.body(sc)
+				vrt.WaitFree()
+				wait()
+				close(done)
+			}()
+			select {
+			case <-done:
+			case <-time.After(150 * time.Second):
+				r.Violate("race-run:stuck", fmt.Sprintf("free-running scenario {%s} did not finish within 150 s (a handshake is never answered)", sc), replayData{Scenario: sc, Seed: c.Seed})
+				return
+			}
 			r.Eval(1)
 			for ci := range sc.Clients {
 				if got := render(o, ci); got != solo[ci] {
